@@ -25,16 +25,34 @@ Proof. intros Hok HFG. apply (noninterference (ssub_prog fuel events d) S F G Ho
 
 (** plumbing: once a WebSocket connection is initialised, no change of the environment reaches its
     operations and subscription events *)
+Definition is_init (st : pstep) : bool := match st with PInit | PInitWith _ => true | _ => false end.
+
 Lemma ws_frozen h : forall env F,
-  (forall st, In st h -> st <> PInit) ->
+  (forall st, In st h -> is_init st = false) ->
   forall o, In o (ws_effective env (Some F) h) -> o = Some F.
 Proof.
   induction h as [|st r IH]; intros env F Hn o Ho; [contradiction|].
-  assert (Hr : forall st', In st' r -> st' <> PInit) by (intros st' H'; apply Hn; right; exact H').
-  destruct st as [now | |]; cbn [ws_effective] in Ho.
+  assert (Hr : forall st', In st' r -> is_init st' = false) by (intros st' H'; apply Hn; right; exact H').
+  pose proof (Hn st (or_introl eq_refl)) as Hst.
+  destruct st as [now | | f |]; cbn [ws_effective] in Ho; try discriminate.
   - eapply IH; eauto.
-  - exfalso. apply (Hn PInit); [left|]; reflexivity.
   - destruct Ho as [Ho | Ho]; [symmetry; exact Ho | eapply IH; eauto].
+Qed.
+
+(** the connection runs with what the LATEST accepted init granted *)
+Lemma ws_latest_init h1 f h2 : forall env conn,
+  (forall st, In st h2 -> is_init st = false) ->
+  forall o, In o (ws_effective env conn (h1 ++ PInitWith f :: h2)) ->
+  In o (ws_effective env conn h1) \/ o = Some f.
+Proof.
+  induction h1 as [|st r IH]; intros env conn Hn o Ho.
+  - right. cbn [app ws_effective] in Ho. eapply ws_frozen; eauto.
+  - cbn [app] in Ho. destruct st as [now | | g |]; cbn [ws_effective] in *.
+    + eapply IH; eauto.
+    + eapply IH; eauto.
+    + eapply IH; eauto.
+    + destruct Ho as [Ho | Ho]; [left; left; exact Ho|].
+      destruct (IH env conn Hn o Ho) as [H | H]; [left; right; exact H | right; exact H].
 Qed.
 
 (** ** discipline *)
